@@ -165,5 +165,26 @@ theorem fpxr_document {f : Forest} (hi : f.Inv) (env : Env) {nd : Nat} (hd : f.i
     exact this
   · rw [k6, fpxr_roots_graft' hi.nodup r' hrm hrh hnr, hgr]
 
+/-- The tree-level theorem WRITABLE of C10 (`facts_writable`, Props/C10 `C10_repair_writable`) carried to
+    the forest model: after `create_missing_prefixes` on an element of a forest with the invariant the
+    serialiser's `MissingPrefix` checks pass on the erased root tree at the (unchanged) path of the
+    element. -/
+theorem fpxr_element_writable {f : Forest} (hi : f.Inv) (env : Env) (hok : EnvOk env) {nd : Nat}
+    (he : f.isElement nd = true) {r : HTree} (hr : f.rootOf? nd = some r) {path : Path}
+    (hp : r.pathOf nd = some path) :
+    ∃ r', (f.createMissingPrefixes env nd).1.rootOf? nd = some r' ∧ pathOf nd r' = some path ∧
+      namesWritable (f.createMissingPrefixes env nd).2.1 r'.erase path = some true := by
+  obtain ⟨r', _, _, htree, hroot, hpath, _⟩ := fpxr_element hi env he hr hp
+  obtain ⟨D, _, hg, _, _, hDe⟩ := fpxr_locate hi hr hp
+  have hu := fpxr_uniqueBelow hi hg
+  have hel : D.value.isElement = true := by rw [← (fpxr_kinds hg).1]; exact he
+  rw [(fpxr_cmp_element hi env he hr hp).2] at htree
+  cases D with
+  | node dh dv dk =>
+    cases dv <;> simp [HTree.value, Value.isElement] at hel
+    simp only [erase] at hDe hu
+    exact ⟨r', hroot, hpath,
+      facts_writable hDe (repairElement_facts env hok r.erase path _ _ hDe hu _ _ htree)⟩
+
 end Forest
 end XotModel
